@@ -36,13 +36,20 @@ def main() -> int:
             assert oc.status == "crash", (k, oc.status)
             assert [e["kind"] for e in oc.effects] == kinds[:k], (k, oc.effects)
             sim2.destroy()
-        # torn-prefix leaves exactly the requested prefix
-        kpage = max(i for i, e in enumerate(o.effects) if e["path"] == "a.zo")
+        # torn-prefix leaves exactly a strict prefix of what the write would have written
+        kw = max(i for i, e in enumerate(o.effects) if e["kind"] == "write" and e.get("size", 0) > 2)
+        wpath = o.effects[kw]["path"]
         sim3 = hist.materialize(os.path.join(scratch, "t"), case)
-        oc = sim3.run({"op": "create"}, fault={"kind": "torn-prefix", "k": kpage, "j_mode": "frac", "j": 0.5})
+        oc = sim3.run({"op": "create"}, fault={"kind": "torn-prefix", "k": kw, "j_mode": "frac", "j": 0.5})
         assert oc.status == "crash"
-        torn = ob.read_all_files(sim3.zdir)["a.zo"]
-        assert torn == text.encode()[: len(torn)] and 0 < len(torn) < len(text), (torn, text)
+        assert oc.effects[-1].get("torn") and oc.effects[-1]["path"] == wpath, oc.effects[-1]
+        with core._real_open(os.path.join(sim3.zdir, wpath), "rb") as f:
+            torn = f.read()
+        assert 0 < len(torn) < o.effects[kw]["size"], (len(torn), o.effects[kw])
+        # torn-empty leaves an empty file
+        sim5 = hist.materialize(os.path.join(scratch, "e"), case)
+        oc = sim5.run({"op": "create"}, fault={"kind": "torn-empty", "k": kw})
+        assert oc.status == "crash" and os.path.getsize(os.path.join(sim5.zdir, wpath)) == 0
         # simulated clock reaches ZID allocation
         sim4 = hist.materialize(os.path.join(scratch, "c"), {"world": {"files": {"b.zo": "# T\n\n- x1 y\n"}}, "run_seed": 1, "day0": core.EPOCH_DAY + 400})
         assert sim4.run({"op": "create"}).status == "ok"
